@@ -130,6 +130,24 @@ CHECKS = {
         note="Trusted: vf/refsem.py; the reference substitution on specs is cross-validated "
              "against the rebinding formulation on every variable-only map. The memoizing forms "
              "are given inputs in which equal subtrees are one object."),
+    "C04": dict(
+        category="exploration", design="DESIGN.md 4/C04",
+        technique="bounded-exhaustive enumeration of (class hierarchy, handler subset, mapper "
+                  "kind, entry point) dispatch cases and of expression trees x argument shapes x "
+                  "stock traversals, against a child table and resolution rule written "
+                  "independently",
+        text="Dispatch: all 67 generated user classes (decorated / undecorated / legacy / mixed "
+             "hierarchies of depth 1-2 over four bases) x every subset of the handlers in their "
+             "chain x plain/cached mapper x __call__/rec/rec_fallback x argument shapes, 23 kinds "
+             "of foreign objects, and the derived handler name of every class. Traversals: every "
+             "node shape with every leaf combination and every (parent, position, child) nesting "
+             "(thorough: three-level chains) through identity, rewriting identity (exactly the "
+             "ancestors of the rewritten leaf are new objects), walk (well-nested visit/post_visit "
+             "per occurrence, visit()=False at every composite node), leaf-counting combine, "
+             "collector, callback and the cached variants, with extra positional/keyword "
+             "arguments observed at every handler; unsupported node types must raise.",
+        note="Trusted: the child table (vf/checks/c09.py expr_children), the restated "
+             "resolution order, the independent CamelCase converter."),
 }
 
 NOT_BUILT_REASON = "check not built yet in this revision (planned, see DESIGN.md section 4)"
